@@ -315,3 +315,233 @@ def run_replay(prop, path):
     print("VIOLATION property=%s replay=%s" % (prop, path))
     print("  class=%s step=%s\n  %s" % (v["cls"], v.get("step"), v["msg"][:1500]))
     return 1
+
+
+# ---------------------------------------------------------------------------
+# cross-configuration checks (C20): the same programs in several fresh interpreters
+# ---------------------------------------------------------------------------
+def _cross_replay(scratch, prop, seed, tier, case, cfgs, tmpdir):
+    """Run one case under each (build, hashseed) in a fresh interpreter; returns list of (digest, steps) or raises."""
+    import tempfile
+    fd, path = tempfile.mkstemp(prefix="xcase-", suffix=".json", dir=tmpdir)
+    with os.fdopen(fd, "w") as fh:
+        json.dump({"property": prop, "seed": seed, "tier": tier, "case": case}, fh, default=repr)
+    out = []
+    try:
+        for b, h in cfgs:
+            res, err = run_worker(scratch, b, h, ["--prop", prop, "--seed", str(seed), "--tier", tier, "--replay", path], timeout=300)
+            if res.get("type") != "replay":
+                raise RuntimeError("cross replay failed: %s" % (res.get("msg") or res))
+            if res.get("violation") is not None:
+                out.append(("violation:" + res["violation"]["cls"], None))
+            else:
+                out.append((res.get("trace_digest"), res.get("steps")))
+    finally:
+        os.remove(path)
+    return out
+
+
+def run_cross(prop, tier="quick", seed=None, nproc=None, runs=None, budget=None):
+    t0 = time.time()
+    build.install_signal_cleanup()
+    reg = REG[prop]
+    seed = DEFAULT_SEED if seed is None else seed
+    nproc = nproc or int(os.environ.get("XSIM_NPROC", os.cpu_count() or 4))
+    n_runs = int(runs or os.environ.get("XSIM_RUNS") or reg["runs"][tier])
+    bs = reg["batch"][tier]
+    budget = float(budget or os.environ.get("XSIM_BUDGET_S") or reg["budget"][tier])
+    nseeds = reg["cross"][tier]
+    try:
+        scratch = build.make_scratch(need_compiled=True)
+    except Exception as e:
+        print("HARNESS-ERROR: build failed: %s" % e)
+        return 2
+    t_build = time.time() - t0
+    cfgs = [(b, hashseed_for(seed, prop, "%s%d" % (b, j))) for b in ("compiled", "pure") for j in range(nseeds)]
+    ranges = [(lo, min(lo + bs, n_runs)) for lo in range(0, n_runs, bs)]
+    jobs = [(r, c) for r in ranges for c in cfgs]
+    results = {}
+    errors = []
+    t_search0 = time.time()
+
+    def do(job):
+        (lo, hi), (b, h) = job
+        if errors or (time.time() - t_search0) > budget:
+            return
+        res, err = run_worker(scratch, b, h, ["--prop", prop, "--seed", str(seed), "--tier", tier, "--runs", "%d:%d" % (lo, hi),
+                                              "--dump-digests", "--no-shrink"], timeout=max(600, budget * 2))
+        if res.get("type") != "batch":
+            errors.append(res.get("msg") or str(res))
+            return
+        results[job] = res
+
+    with ThreadPoolExecutor(max_workers=nproc) as tp:
+        list(tp.map(do, jobs))
+    t_search = time.time() - t_search0
+    if errors:
+        print("HARNESS-ERROR: %s" % errors[0][:4000])
+        build.remove_scratch(scratch)
+        return 2
+    stats = {}
+    evaluations = 0
+    programs = set()
+    nontriv = set()
+    samples = []
+    mismatches = []
+    complete_ranges = 0
+    cpu = 0.0
+    for r in ranges:
+        got = [(c, results.get((r, c))) for c in cfgs]
+        done = [(c, x) for c, x in got if x is not None]
+        for c, x in done:
+            evaluations += x["evaluations"]
+            cpu += x.get("cpu_s", 0.0)
+            for k, n in x["stats"].items():
+                stats[k] = stats.get(k, 0) + n
+        if len(done) < 2:
+            continue
+        if len(done) == len(cfgs):
+            complete_ranges += 1
+        base_c, base = done[0]
+        programs.update(base["digests"])
+        nontriv.update(base["nontrivial"])
+        if len(samples) < 2:
+            samples.extend(base["samples"][:2 - len(samples)])
+        by_run = {}
+        for c, x in done:
+            for rd in x["run_digests"]:
+                by_run.setdefault(rd[0], []).append((c, rd))
+        for run in sorted(by_run):
+            lst = by_run[run]
+            c0, rd0 = lst[0]
+            for c, rd in lst[1:]:
+                if rd[1] != rd0[1]:
+                    mismatches.append({"run": run, "a": c0, "b": c, "what": "the harness generated different programs under the two configurations"})
+                    break
+                if rd[2] != rd0[2] or rd[3] != rd0[3]:
+                    s0, s1 = rd0[4] or [], rd[4] or []
+                    k = 0
+                    while k < min(len(s0), len(s1)) and s0[k] == s1[k]:
+                        k += 1
+                    mismatches.append({"run": run, "a": c0, "b": c, "step": k, "what": "transcripts differ"})
+                    break
+    rc = 0
+    confirmed = 0
+    tmpdir = scratch["root"]
+    for mm in mismatches[:1]:
+        run = mm["run"]
+        if mm["what"] != "transcripts differ":
+            print("HARNESS-ERROR: run %d: %s (%s vs %s)" % (run, mm["what"], mm["a"], mm["b"]))
+            rc = 2
+            break
+        # fetch the case, confirm in fresh interpreters, minimise across processes, write the replay file
+        res, err = run_worker(scratch, mm["a"][0], mm["a"][1], ["--prop", prop, "--seed", str(seed), "--tier", tier,
+                                                                "--runs", "%d:%d" % (run, run + 1), "--emit-cases", "--no-shrink"], timeout=600)
+        case = (res.get("cases") or {}).get(str(run))
+        if case is None:
+            print("HARNESS-ERROR: could not fetch the case of run %d" % run)
+            rc = 2
+            break
+        pair = [mm["a"], mm["b"]]
+
+        def fails(c):
+            o = _cross_replay(scratch, prop, seed, tier, c, pair, tmpdir)
+            return o[0][0] != o[1][0]
+
+        try:
+            if not fails(case):
+                print("HARNESS-ERROR: transcript mismatch of run %d (%s vs %s) did not reproduce in fresh interpreters" % (run, mm["a"], mm["b"]))
+                rc = 2
+                break
+            from .common import ddmin
+            small = dict(case)
+            t_end = time.time() + 240
+
+            def f_ops(sub):
+                if time.time() > t_end:
+                    return False
+                c = dict(small)
+                c["ops"] = list(sub)
+                return fails(c)
+            small["ops"] = ddmin(list(case["ops"]), f_ops, max_tests=60)
+            if small.get("epilogue"):
+                def f_epi(sub):
+                    if time.time() > t_end:
+                        return False
+                    c = dict(small)
+                    c["epilogue"] = list(sub)
+                    return fails(c)
+                if f_epi([]):
+                    small["epilogue"] = []
+            o = _cross_replay(scratch, prop, seed, tier, small, pair, tmpdir)
+        except RuntimeError as e:
+            print("HARNESS-ERROR: %s" % e)
+            rc = 2
+            break
+        s0, s1 = o[0][1] or [], o[1][1] or []
+        k = 0
+        while k < min(len(s0), len(s1)) and s0[k] == s1[k]:
+            k += 1
+        os.makedirs(os.path.join(VERIF, "replays"), exist_ok=True)
+        path = os.path.join(VERIF, "replays", "%s-%d-%d.json" % (prop, seed, run))
+        with open(path, "w") as fh:
+            json.dump({"property": prop, "seed": seed, "run": run, "tier": tier, "configs": pair,
+                       "violation": {"cls": prop + ".transcript", "step": k,
+                                     "msg": "transcripts differ from step %d on between %s and %s" % (k, pair[0], pair[1])},
+                       "case": small, "original_case": case}, fh, default=repr)
+        print("VIOLATION property=%s replay=%s" % (prop, path))
+        print("  class=%s.transcript run=%d: build=%s hashseed=%s and build=%s hashseed=%s give different transcripts from step %d on "
+              "(minimised to %d ops)" % (prop, run, pair[0][0], pair[0][1], pair[1][0], pair[1][1], k, len(small["ops"])))
+        confirmed += 1
+        rc = 1
+    wall = time.time() - t0
+    per_hour = int(evaluations / max(t_search, 1e-6) * 3600)
+    coverage = {
+        "evaluations": evaluations,
+        "distinct_nontrivial": len(nontriv),
+        "rule": reg["rule"],
+        "samples": samples[:2] if samples else [{"note": "no sample collected"}],
+        "distinct_programs": len(programs),
+        "configurations": [{"build": b, "hashseed": h} for b, h in cfgs],
+        "program_ranges_run_under_all_configurations": complete_ranges,
+        "runs_per_hour_measured": per_hour, "seeds_per_hour_measured": per_hour,
+        "search_wall_s": round(t_search, 2), "build_wall_s": round(t_build, 2), "worker_cpu_s": round(cpu, 1),
+        "worker_interpreters": len(results),
+        "simulated_time": "none: xdeps has no clock; logical time = simulator events",
+        "faults_fired": {k[len("fault:"):]: n for k, n in stats.items() if k.startswith("fault:")},
+        "probes": {k: n for k, n in stats.items() if not k.startswith("fault:")},
+        "distinct_interleavings": {"measure": "each program is executed under every listed (build, hash seed) configuration, i.e. under "
+                                              "that many set-iteration schedules", "schedules_per_program": len(cfgs)},
+        "components": reg["components"],
+        "source_digest": build.source_digest(), "setarch_R": bool(setarch_prefix()), "nproc": nproc,
+        "transcript_mismatches_seen": len(mismatches),
+    }
+    write_evidence(prop, tier, seed, reg["level"], coverage, wall, confirmed, ASSUMPTIONS + reg.get("assumptions", []))
+    build.remove_scratch(scratch)
+    print("%s %s: %d program executions (%d programs, %d non-trivial) under %d configurations in %.1fs (+%.1fs build), mismatches=%d, rc=%d"
+          % (prop, tier, evaluations, len(programs), len(nontriv), len(cfgs), t_search, t_build, len(mismatches), rc))
+    if evaluations == 0 and rc == 0:
+        print("HARNESS-ERROR: nothing was executed")
+        return 2
+    return rc
+
+
+def run_cross_replay(prop, path):
+    build.install_signal_cleanup()
+    with open(path) as fh:
+        rp = json.load(fh)
+    scratch = build.make_scratch(need_compiled=True)
+    try:
+        pair = [tuple(c) for c in rp["configs"]]
+        o = _cross_replay(scratch, prop, rp.get("seed", 0), rp.get("tier", "quick"), rp["case"], pair, scratch["root"])
+    except RuntimeError as e:
+        print("HARNESS-ERROR: %s" % e)
+        return 2
+    finally:
+        build.remove_scratch(scratch)
+    if o[0][0] == o[1][0]:
+        print("replay of %s: transcripts agree (property held)" % path)
+        return 0
+    print("VIOLATION property=%s replay=%s" % (prop, path))
+    print("  build=%s hashseed=%s and build=%s hashseed=%s give different transcripts" % (pair[0][0], pair[0][1], pair[1][0], pair[1][1]))
+    return 1
